@@ -27,6 +27,8 @@ def run(chk: Check, ctx: Any) -> None:
         "file's directory, others through the lookup paths in their given order, first hit wins, and sub-compilers inherit the lookup paths (R3). "
         "The macro compilation order is a topological order of the dependency graph with edges callee -> caller (R4). Behaviour of the "
         "expanded ops inherits C01's limits."
+        " (R6, interpreter-based) compile() is evaluated on multi-file macro projects held in a virtual file system and compared with hand-inlined programs by "
+        "bisimulation; meaningless projects must be rejected."
     )
     chk.rule("C05-R6", "compile() interpreted on multi-file projects (virtual files): a program with macro calls behaves like the same program with the bodies inlined by hand (bisimilar flow graphs, all test outcomes): nesting across files, return, control flow and labels in macros, repeated calls, argument permutation and kinds, import resolution (relative to the importing file, lookup order, diamonds), definition order; recursive/unknown macros, missing arguments, missing/cyclic imports, routines in imports are rejected with a documented error")
     chk.rule("C05-R1", "build(): one fresh label per blueprint label id and expansion (placement and jump targets use the same table); Return -> Jump to the fresh "
